@@ -200,6 +200,7 @@ def finish(M, rec, write=True):
         rec.gate(rec.counters.get("wellformed_paths_checked", 0) > 0, "no well-formed path checked")
         rec.gate(rec.counters.get("malformed_paths_rejected", 0) > 0, "no malformed path observed")
         rec.gate(rec.counters.get("monitor_internal_errors", 0) == 0, "monitor internal errors")
+    rec.extra["exhaustive_subspaces"] = [f"all path shapes of length 0..{rec.extra.get('path_shapes_exhaustive_up_to_length')} over {{Node, Link, other}} x origin? x destination?"]
     return rec.finish(
         ["transition_postconditions", "path_calls", "history_calls"],
         ["path_shape_classes", "history_op_kinds"],
